@@ -541,7 +541,7 @@ def hp_drift(scripts, traces):
     compared = bad = 0
     first = None
     for sc in scripts:
-        if 'dict-model' not in sc.get('tags', []) or sc['cfg'].get('kind') not in ('HP', 'BUP'):
+        if 'dict-model' not in sc.get('tags', []) or sc['cfg'].get('kind') not in ('HP', 'BUP', 'DHP'):
             continue
         tr = traces.get(sc['tid'])
         if not tr:
@@ -560,7 +560,7 @@ def hp_drift(scripts, traces):
                 first = first or dict(tid=sc['tid'], op=o['op'], predicted=ex,
                                       recorded={k: e.get(k) for k in list(ex) if k in e})
                 break
-    return dict(compared=compared, disagreements=bad, first=first, model='HP.tla / BUP.tla')
+    return dict(compared=compared, disagreements=bad, first=first, model='HP.tla / BUP.tla / DHP.tla')
 
 
 def run_parser(ctx, fam):
@@ -594,9 +594,10 @@ def run_parser(ctx, fam):
         # implementation-shaped dictionary models with the real slot function:
         # HP.tla (also run on BHP, which shares the dictionary) and BUP.tla.
         # The quick tier runs one of the two per property, the thorough tier both.
-        models = [('HP.tla', 'HP_q.cfg', 'HP_T.cfg', 'HP'), ('BUP.tla', 'BUP_q.cfg', 'BUP_T.cfg', 'BUP')]
+        models = [('HP.tla', 'HP_q.cfg', 'HP_T.cfg', 'HP'), ('BUP.tla', 'BUP_q.cfg', 'BUP_T.cfg', 'BUP'),
+                  ('DHP.tla', 'DHP_q.cfg', 'DHP_T.cfg', 'DHP')]
         if not t:
-            models = [models[0]] if ctx.prop in ('C01', 'C03', 'C15') else [models[1]]
+            models = [models[{'C01': 0, 'C02': 1, 'C03': 2, 'C14': 0, 'C15': 1, 'C19': 2}.get(ctx.prop, 0)]]
         for mod, cq, ct, mk in models:
             log('[%s] design model check + transition cover of %s (dictionary with the real slot function)' % (ctx.prop, mod))
             hist = vlib.tlc_cover(ctx, mod, ct if t else cq, limit=(6000 if t else mix['hp']), seed=ctx.seed, timeout=3000)
@@ -607,6 +608,8 @@ def run_parser(ctx, fam):
                 kind = mk
                 if mk == 'HP' and i % 3 == 2:
                     kind = 'BHP'      # BHP shares the dictionary (no prediction for it)
+                if mk == 'DHP' and i % 3 == 2:
+                    kind = 'BDHP'
                 cfgd = dict(begin, kind=kind)
                 cfgd.pop('BucketSize', None) if kind != 'BUP' else None
                 scripts.append(dict(tid='%s-cover-%d' % (mk.lower(), i), comp='parser', cfg=cfgd, ops=ops[1:],
@@ -1174,7 +1177,7 @@ PROPS = {
     'C03': fam_parser('same recordings as C01; rules C03.* (ErrEmptyBuffer iff nothing unparsed, emptied block, 1 <= n <= min(BlockSize, unparsed), Block.Len() = n, NoTrailingLiterals leaves no trailing literals); contiguity is the C01 equation of the next block', MIX_GENERAL),
     'C14': fam_parser('same recordings as C01 (10-30% nil blocks in a third of the scripts); rules C14.n, C14.empty_iff, and C14.block_after_skip = the round-trip equation for every block parsed after a skipped one', MIX_GENERAL),
     'C15': fam_parser('same recordings as C01 incl. probes (ReadAt/ByteAt at Off-2..Off+1 and end-2..end+1), Reset with caller slices of capacity len, len+3, len+7, len+8, len+20; rules C15.* (write_n, write_full_iff, readfrom_*, shrink_delta, reset_err, readat_*, byteat, no_panic)', MIX_GENERAL),
-    'C19': fam_parser('recordings: run generator (every byte class incl. 0x00, runs of 32..432 bytes crossing block and buffer boundaries, WindowSize 1/2) + the C01 generators; + collision generator (hash parsers with 0..3 hash bits, repeats of 9..40 bytes); rules C19.right_maximal, C19.left_maximal (BHP, BDHP), C19.run_literals', dict(walks=70, go=[('parser-runs', 210), ('parser', 175), ('parser-collide', 150)])),
+    'C19': fam_parser('recordings: run generator (every byte class incl. 0x00, runs of 32..432 bytes crossing block and buffer boundaries, WindowSize 1/2) + the C01 generators; + collision generator (hash parsers with 0..3 hash bits, repeats of 9..40 bytes); rules C19.right_maximal, C19.left_maximal (BHP, BDHP), C19.run_literals', dict(walks=70, hp=300, go=[('parser-runs', 210), ('parser', 175), ('parser-collide', 150)])),
     'C12': dict(run=run_multi, trace_module=None, parts=[
         dict(run=run_bitset, trace_module='Bitset_Trace', assumptions=['the verif-tagged VerifBitset hook forwards to the unexported bitset methods without adding behaviour'],
              rule='the search set of GSAP on its own: every transition of Bitset.tla (insert / delete / clear over positions around the 64-bit word boundaries, incl. re-use of the backing array after clear and downward growth) + seeded longer histories run on the real bitset through the VerifBitset hook; rules C12.bitset_members, C12.bitset_neighbours (set semantics)'),
